@@ -25,7 +25,8 @@ type stdPair struct {
 	stdRecv, name string // function in GOROOT/src/<stdPkg> (default encoding/json)
 	rel, recv     string // sonic package / receiver
 	stdPkg        string
-	noCalls       bool // compare branch conditions and loop headers only
+	noCalls       bool   // compare branch conditions and loop headers only
+	sonicName     string // name of sonic's copy when it differs
 }
 
 var stdPairs = []stdPair{
@@ -40,6 +41,8 @@ var stdPairs = []stdPair{
 	// the heap-sort fallback of the map-key sorter is sort.heapSort / sort.siftDown over []_MapPair
 	{name: "heapSort", rel: "internal/encoder/alg", stdPkg: "sort", noCalls: true},
 	{name: "siftDown", rel: "internal/encoder/alg", stdPkg: "sort", noCalls: true},
+	// the json.Number grammar check used by both encoder executors is encoding/json.isValidNumber
+	{name: "isValidNumber", sonicName: "IsValidNumber", rel: "internal/encoder/alg", noCalls: true},
 }
 
 // textual rewrites applied to the standard library's events before comparing (sort.Interface
@@ -156,8 +159,8 @@ func recvTypeName(fd *ast.FuncDecl) string {
 }
 
 func init() {
-	register(&core.Rule{ID: "S11", Min: 10,
-		Doc: "Sibling cross-check against the standard library: for sonic's copies of encoding/json's field-resolution functions (typeFields, dominantField, parseTag, isValidTag, tagOptions.Contains, foldName, appendFoldedName, foldRune), the sequence of branch conditions and calls of the encoding/json function in the analysing toolchain's GOROOT is a subsequence of the sequence in sonic's function (function literals excluded; listed renames/ignores), so sonic's resolver takes every decision encoding/json takes, in the same order; likewise the heap-sort fallback of the map-key sorter (alg.heapSort, alg.siftDown) against sort.heapSort / sort.siftDown, comparing branch conditions and loop headers.",
+	register(&core.Rule{ID: "S11", Min: 11,
+		Doc: "Sibling cross-check against the standard library: for sonic's copies of encoding/json's field-resolution functions (typeFields, dominantField, parseTag, isValidTag, tagOptions.Contains, foldName, appendFoldedName, foldRune), the sequence of branch conditions and calls of the encoding/json function in the analysing toolchain's GOROOT is a subsequence of the sequence in sonic's function (function literals excluded; listed renames/ignores), so sonic's resolver takes every decision encoding/json takes, in the same order; likewise the heap-sort fallback of the map-key sorter (alg.heapSort, alg.siftDown) against sort.heapSort / sort.siftDown, comparing branch conditions and loop headers; and alg.IsValidNumber against encoding/json.isValidNumber.",
 		Run: runS11})
 }
 
@@ -184,7 +187,11 @@ func runS11(c *core.Ctx) {
 		}
 		cn := "stdsib:" + pr.name
 		pk := c.Prog.Pkg(pr.rel)
-		fd := core.FuncDecl(pk, pr.recv, pr.name)
+		sname := pr.name
+		if pr.sonicName != "" {
+			sname = pr.sonicName
+		}
+		fd := core.FuncDecl(pk, pr.recv, sname)
 		if fd == nil || fd.Body == nil {
 			c.Undecided(cn, token.NoPos, "sonic function %s.%s not found in %s", pr.recv, pr.name, pr.rel)
 			continue
